@@ -167,6 +167,8 @@ class Engine:
                 elif ev == "reset":
                     s = e.get("s", {})
                     self.cov["scenario:%s/%s" % (s.get("framing", e.get("kind", "-")), s.get("faultKind", "-"))] += 1
+                elif ev == "mpart":
+                    self.cov["mpart:%s/added=%s" % (e.get("res"), e.get("added"))] += 1
                 elif ev == "proxy":
                     self.cov["proxy:%s" % e.get("kind")] += 1
                 elif ev == "done":
